@@ -506,3 +506,8 @@ package packet
 //@   ensures !Sfail(st) && k <= 5 && PL >= k2 && k2 <= 5 && DL != 0 && (DL < threshold || DL > 2097152) ==> err != nil   [@reject]
 //@   ensures Sfail(st) ==> err != nil                                                [@errprop]
 //@   modifies p.ID, p.Data, p.Data[0:cap(p.Data)], stream(r)                         [@frame]
+
+// Tuple.ReadFrom runs its elements' decoders (dynamic types, some through reflection): not
+// verified. Callers under contract treat it as a call of unknown effect.
+//@ func (Tuple).ReadFrom(t; r) (n, err)
+//@   trusted
